@@ -3,7 +3,8 @@
 From Coq Require Import List Arith Bool Permutation.
 Import ListNotations.
 From Eudoxia Require Import Model.Types Model.Dag Model.Lifecycle
-  Proofs.DagProof Proofs.DagBounded Proofs.LifecycleFacts.
+  Model.Container Model.Pool Model.Executor Proofs.DagProof Proofs.DagBounded Proofs.LifecycleFacts
+  Proofs.ExecLifeFacts.
 
 (* Iterating a pipeline's operators visits every operator exactly once ... (all DAGs, no bound) *)
 Theorem C01_iter_perm : forall g, wf_dag g -> Permutation (iterate g) (nodes g).
@@ -38,6 +39,24 @@ Theorem C01_bad_start_rejected : forall S w op p,
   transition S w op Running = Err EDep.
 Proof. exact bad_start_rejected_dep. Qed.
 Print Assumptions C01_bad_start_rejected.
+
+(* Executor level: in every state reachable by executor ticks under arbitrary scheduler commands
+   (legal or not; an illegal one ends the run with Err), for pipelines built from well-formed DAGs,
+   every running or completed operator has only completed parents. *)
+Theorem C01_exec_dep_inv : forall C l n cpu ram s,
+  cf_static C = mk_static l -> dags_wf l ->
+  reach_exec_r C (init_estate C n cpu ram) s -> DepInv (cf_static C) (e_world s).
+Proof. exact exec_dep_inv_mk_static. Qed.
+Print Assumptions C01_exec_dep_inv.
+
+(* a container about to start an operator whose parent is unfinished raises the dependency error *)
+Theorem C01_container_bad_start_rejected : forall C w cons c op p,
+  c_completed c = false -> c_frozen c = false ->
+  nth_error (c_ops c) (c_opidx c) = Some op -> c_rest c = None ->
+  st_of w op = Assigned -> In p (op_parents (cf_static C) op) -> st_of w p <> Completed ->
+  ctick C w cons c = Err EDep.
+Proof. exact ctick_bad_start_rejected_dep. Qed.
+Print Assumptions C01_container_bad_start_rejected.
 
 (* non-vacuity: in a diamond, the join cannot start while one branch is unfinished *)
 Example C01_witness :
